@@ -266,19 +266,25 @@ func checkC06(c *Ctx, r *Report) {
 	r5 := r.Rule("C06-R5", "E1", 7, "swarm wiring order: register+ref before Connected; Connected before the accept loop; removal before Disconnected; Close waits before closing emitters")
 	sw := "(*" + swarmP + ".Swarm)."
 	if f := r5.need(sw + "addConn"); f != nil {
-		addC := findInstrs(f, callPred(em("AddConn")))
-		start := findInstrs(f, callPred("(*"+swarmP+".Conn).start"))
-		reg := findInstrs(f, func(in ssa.Instruction) bool {
+		// each step is where it happens in addConn — directly, or at the call of a helper extracted since
+		isReg := func(in ssa.Instruction) bool {
 			mu, ok := in.(*ssa.MapUpdate)
 			return ok && strings.Contains(mu.Map.Type().String(), "swarm.Conn")
-		})
-		refs := findInstrs(f, func(in ssa.Instruction) bool {
+		}
+		isRefsAdd := func(in ssa.Instruction) bool {
 			if !isCallTo(in, "(*sync.WaitGroup).Add") {
 				return false
 			}
 			fl, _ := fieldAddrOf(in.(ssa.CallInstruction).Common().Args[0])
 			return fl != nil && fl.Name() == "refs"
-		})
+		}
+		like := func(p func(ssa.Instruction) bool) func(ssa.Instruction) bool {
+			return func(in ssa.Instruction) bool { return siteLike(in, p) }
+		}
+		addC := findInstrs(f, like(callPred(em("AddConn"))))
+		start := findInstrs(f, like(callPred("(*"+swarmP+".Conn).start")))
+		reg := findInstrs(f, like(isReg))
+		refs := findInstrs(f, like(isRefsAdd))
 		ok := len(addC) == 1 && len(start) == 1 && len(reg) == 1 && len(refs) == 1
 		r5.Check(ok, sw+"addConn: sites", f.Pos(), 4, "", "expected one registration, one refs.Add, one AddConn, one start", "")
 		if ok {
@@ -300,18 +306,29 @@ func checkC06(c *Ctx, r *Report) {
 				fl, base := fieldAddrOf(ci.Common().Args[0])
 				return fl != nil && fieldKeyOf(base, fl) == swarmP+".Swarm.refs"
 			}
+			// releasing parties: the goroutine bodies (closures, or methods extracted since) of doClose and start
+			// that release a reference when they end (deferred Done)
 			parties := 0
-			for _, k := range []string{"(*" + swarmP + ".Conn).doClose", "(*" + swarmP + ".Conn).start"} {
-				if g := c.Fn(k); g != nil {
-					for _, a := range allAnon(g) {
-						if len(findInstrs(a, func(in ssa.Instruction) bool { _, d := in.(*ssa.Defer); return d && isRefsCall(in, "Done") })) > 0 {
-							parties++
-						}
-					}
+			for _, g := range c.FnsOfPkg(swarmP) {
+				rk := fnKey(c.PinnedRoot(g))
+				if rk != "(*"+swarmP+".Conn).doClose" && rk != "(*"+swarmP+".Conn).start" {
+					continue
+				}
+				if len(findInstrs(g, func(in ssa.Instruction) bool { _, d := in.(*ssa.Defer); return d && isRefsCall(in, "Done") })) > 0 {
+					parties++
 				}
 			}
-			lf := computeLockFlow(f, heldSet{})
-			k, isC := constInt(refs[0].(ssa.CallInstruction).Common().Args[1])
+			realRefs, realReg := siteIn(refs[0], isRefsAdd), siteIn(reg[0], isReg)
+			if len(realRefs) != 1 || len(realReg) != 1 || realRefs[0].Parent() != realReg[0].Parent() {
+				r5.Fail(sw+"addConn: registration and refs.Add in one function", f.Pos(), "the registration and the reference count are not taken together", "")
+				realRefs, realReg = []ssa.Instruction{refs[0]}, []ssa.Instruction{reg[0]}
+			}
+			lf := computeLockFlow(realReg[0].Parent(), heldSet{})
+			var k int64
+			isC := false
+			if ci, isCall := realRefs[0].(ssa.CallInstruction); isCall && isRefsAdd(realRefs[0]) {
+				k, isC = constInt(ci.Common().Args[1])
+			}
 			heldConns := func(h heldSet) bool {
 				for k := range h {
 					if strings.HasSuffix(k, ".conns.RWMutex") {
@@ -320,12 +337,30 @@ func checkC06(c *Ctx, r *Report) {
 				}
 				return false
 			}
-			underLock := heldConns(lf.must[refs[0]]) && heldConns(lf.must[reg[0]])
+			underLock := heldConns(lf.must[realRefs[0]]) && heldConns(lf.must[realReg[0]])
+			// a reference taken by start itself (synchronously, or in a helper it calls) comes after Connected; the
+			// references the accept loop takes for the streams it spawns are not meant
 			lateAdd := 0
-			if g := c.Fn("(*" + swarmP + ".Conn).start"); g != nil {
-				lateAdd = len(findInstrs(g, func(in ssa.Instruction) bool { return isRefsCall(in, "Add") }))
+			if g0 := c.Fn("(*" + swarmP + ".Conn).start"); g0 != nil {
+				sync := map[*ssa.Function]bool{g0: true}
+				for changed := true; changed; {
+					changed = false
+					for g := range sync {
+						allInstrs(g, func(in ssa.Instruction) {
+							if call, ok := in.(*ssa.Call); ok {
+								if h := call.Call.StaticCallee(); h != nil && h.Blocks != nil && !isPinnedFn(fnKey(h)) && !sync[h] && h.Pkg == g0.Pkg {
+									sync[h] = true
+									changed = true
+								}
+							}
+						})
+					}
+				}
+				for g := range sync {
+					lateAdd += len(findInstrs(g, func(in ssa.Instruction) bool { return isRefsCall(in, "Add") }))
+				}
 			}
-			r5.Check(isC && parties >= 2 && int(k) == parties && underLock && lateAdd == 0, sw+"addConn: one swarm reference per releasing party (doClose, accept loop) is taken in the critical section that registers the connection", instrPos(refs[0]), 3, "",
+			r5.Check(isC && parties >= 2 && int(k) == parties && underLock && lateAdd == 0, sw+"addConn: one swarm reference per releasing party (doClose, accept loop) is taken in the critical section that registers the connection", instrPos(realRefs[0]), 3, "",
 				"Swarm.Close can find the registered connection, close it, and return before its Connected / Disconnected notifications are delivered", fmt.Sprintf("Add(%d) under conns lock=%v, releasing parties=%d, Add in Conn.start=%d", k, underLock, parties, lateAdd))
 		}
 	}
